@@ -519,8 +519,8 @@ class SubmitSm(Trackable, SmppMessage):
             seq_num: int = 0
             total: int = 0
             ind: int = 0
-            if esm_class & 0b01000000:
-                # UDHI flag set, decode UDH
+            if esm_class & 0b01000000 and raw_message:
+                # UDHI flag set, decode UDH (it is in message_payload when short_message is empty)
                 udh_len: int
                 ie_id: int
                 udh_len, ie_id = unpack_from('!BB', raw_message, 0)
